@@ -108,8 +108,19 @@ class C09(SessimProp):
                      json.dumps(res)[:500], None)]
         full = list(steps) + [{"op": "send", "raw": run_req(e, 900001 + i)} for i, e in enumerate(EPILOGUE)]
         out = []
+        pending = False  # was the interrupt flag set when this round started?
         for si, (st, rs) in enumerate(zip(full, res["steps"])):
             for rd in rs["rounds"]:
+                if pending and rd.get("budget_exceeded") and st["op"] == "send":
+                    # An interrupt was waiting when this request began to evaluate, so its first step
+                    # should have reported it; instead it ran until the simulator's step budget.  In a
+                    # real session (no budget) this request - and everything queued behind it - is never
+                    # answered, although the interrupt was acknowledged.
+                    out.append(("interrupt-ignored", "C09:interrupt-ignored:" + self.describe(st),
+                                f"request #{si} {self.describe(st)} started with an acknowledged interrupt pending and "
+                                f"still ran {rd.get('steps')} steps (the whole step budget): it would never be answered", si))
+                    return out
+                pending = bool(rd.get("flag_after"))
                 if rd.get("panic"):
                     what = "reader" if str(rd["panic"]).startswith("reader:") else "eval thread"
                     out.append(("panic", "C09:panic:" + norm_panic(rd["panic"]),
